@@ -45,7 +45,7 @@ def main():
     a = ap.parse_args()
     avail = available()
     pids = a.pids.split(",") if a.pids else avail
-    diffs = sorted(glob.glob(a.glob))
+    diffs = sorted(d for g in a.glob.split(',') for d in glob.glob(g))
     jobs = []
     for d in diffs:
         own = None
